@@ -307,7 +307,7 @@ impl Drv<'_> {
         let mut polls = 0u32;
         let mut after_sender_drop_counted = false;
         loop {
-            if self.steps_left == 0 {
+            if self.steps_left == 0 || self.ctx.tape.exhausted() {
                 self.ctx.trace(|| "consumer: (end of history) drop recv".to_string());
                 return Ok(false);
             }
@@ -463,7 +463,7 @@ pub fn run(ctx: &mut Ctx) -> Result<(), Stop> {
 }
 
 fn drive(d: &mut Drv<'_>, rx: &mut Option<VerifMergeReceiver<Vec<u32>>>) -> Result<(), Stop> {
-    while d.steps_left > 0 {
+    while d.steps_left > 0 && !d.ctx.tape.exhausted() {
         d.steps_left -= 1;
         let a = d.ctx.weighted("c19.step", &[12, 12, 4, 1]);
         d.hash.u64(20 + a as u64);
